@@ -2777,13 +2777,17 @@ class Run:
         pk = OS.pk_of(o)
         newv = 700 + a2 + (getattr(before, col) or 0 if before is not None else 0)
         sess.connection().exec_driver_sql("update m set %s=? where id=?" % col, (newv, pk))
-        how = (a2 // 2) % 3
+        how = (a2 // 2) % 5
         if how == 0:
             sess.expire(o, [col])
         elif how == 1:
             sess.refresh(o, [col])
-        else:
+        elif how == 2:
             sess.expire(o, ["x", "y"])
+        elif how == 3:
+            sess.expire(o, ["pt"])         # by the name of the composite attribute itself
+        else:
+            sess.refresh(o, ["pt"])
         got = o.pt
         now = self.probe()
         row = now["m"].get(pk)
@@ -2796,7 +2800,7 @@ class Run:
         have = None if got is None else (got.x, got.y)
         if have != want and not (got is None and want == (None, None)):
             self.V("C46", "composite_read_stale", "M #%s.pt reads %r after %s of column %r while the row has %r"
-                   % (pk, have, ("expire", "refresh", "expire of both columns")[how], col, want))
+                   % (pk, have, ("expire", "refresh", "expire of both columns", "expire of the composite attribute", "refresh of the composite attribute")[how], col, want))
         if (o.x, o.y) != want:
             self.V("C46", "expired_attribute_read_stale", "M #%s (x, y) reads %r while the row has %r" % (pk, (o.x, o.y), want))
         self.bump("probe:composite_column_expired")
